@@ -2,7 +2,7 @@ import MgpuModel.Util
 /-!
 # C10 (extension) — the buddy allocator `deviceBuddyMemoryState`
 
-Transcription, branch by branch and *with its defects*, of
+Transcription, branch by branch, of
 `amd/driver/internal/devicebuddymemstate.go` + `buddystructures.go`, seen through
 `Device.allocatePage` / `Device.allocateMultiplePages` (`mustHaveSpaceLeft`) and the allocator's
 `deviceIDByPAddr` check on every page it hands out.
@@ -143,7 +143,9 @@ def allocMulti (s : State) (n : Nat) : Except Fault (List Nat × State) :=
   | some i =>
     let block := (lvl s.free i).headD 0
     let s0 : State := { s with free := setLvl s.free i (lvl s.free i).tail }
-    match (if i = level ∧ 0 < i then flipMerge s0 (indexOfBlock s.base s.size block (i - 1)) else .ok s0) with
+    -- repaired: the parent's merge bit is toggled whenever a block leaves a free list (`if i > 0`);
+    -- before the repair only when no split followed (`if i == level && i > 0`): `allocMultiOld`
+    match (if 0 < i then flipMerge s0 (indexOfBlock s.base s.size block (i - 1)) else .ok s0) with
     | .error e => .error e
     | .ok s1 =>
       match splitLoop block (level - i) i s1 with
@@ -319,6 +321,76 @@ def FreeDisjoint (s : State) : Prop :=
     (l ≠ l' ∨ a ≠ a') → a + szl s.size l ≤ a' ∨ a' + szl s.size l' ≤ a
 
 instance (s : State) : Decidable (FreeDisjoint s) := by unfold FreeDisjoint; infer_instance
+
+/-! ## the code before the repair (`if i == level && i > 0`): kept for the `_before_fix` witnesses -/
+
+def allocMultiOld (s : State) (n : Nat) : Except Fault (List Nat × State) :=
+  let fl := s.free.length - 1
+  let ord := ordOf (n * 4096)
+  if fl < ord then .error .oom else
+  let level := fl - ord
+  match findLevel s.free level with
+  | none => .error .oom
+  | some i =>
+    let block := (lvl s.free i).headD 0
+    let s0 : State := { s with free := setLvl s.free i (lvl s.free i).tail }
+    match (if i = level ∧ 0 < i then flipMerge s0 (indexOfBlock s.base s.size block (i - 1)) else .ok s0) with
+    | .error e => .error e
+    | .ok s1 =>
+      match splitLoop block (level - i) i s1 with
+      | .error e => .error e
+      | .ok s2 =>
+        let pages := pagesFrom block n
+        let id := s2.trk.length
+        .ok (pages, { s2 with trk := s2.trk ++ [(block, n)],
+                              track := pages.foldl (fun t p => setTrack t p id) s2.track })
+
+def popOneOld (s : State) : Except Fault (Nat × State) :=
+  if noAvail s then .error .oom else
+  match allocMultiOld s 1 with
+  | .error e => .error e
+  | .ok (ps, s') =>
+    let p := ps.headD 0
+    if inDev s' p then .ok (p, s') else .error .noDevice
+
+def popNOld : Nat → State → Except Fault (List Nat × State)
+  | 0, s => .ok ([], s)
+  | k + 1, s =>
+    match popOneOld s with
+    | .error e => .error e
+    | .ok (p, s1) =>
+      match popNOld k s1 with
+      | .error e => .error e
+      | .ok (ps, s2) => .ok (p :: ps, s2)
+
+def amOpOld (s : State) (n : Nat) : Except Fault (List Nat × State) :=
+  if noAvail s then .error .oom else
+  match allocMultiOld s n with
+  | .error e => .error e
+  | .ok (ps, s') => if ps.all (inDev s') then .ok (ps, s') else .error .noDevice
+
+def stepOld (s : State) : Op → Except Fault (List Nat × State)
+  | .pop k => popNOld k s
+  | .am n => amOpOld s n
+  | .add ps =>
+    match addAll ps s with
+    | .error e => .error e
+    | .ok s' => .ok ([], s')
+
+def runLiveOld : State → List Nat → List Op → LiveRun
+  | s, live, [] => ⟨true, live, s⟩
+  | s, live, op :: ops =>
+    match op with
+    | .add ps =>
+      if ps.Nodup ∧ ∀ p ∈ ps, p ∈ live then
+        match stepOld s op with
+        | .error _ => ⟨true, live, s⟩
+        | .ok (_, s') => runLiveOld s' (live.filter (fun p => !ps.contains p)) ops
+      else ⟨false, live, s⟩
+    | _ =>
+      match stepOld s op with
+      | .error _ => ⟨true, live, s⟩
+      | .ok (ps, s') => runLiveOld s' (live ++ ps) ops
 
 /-! ## line protocol
 
